@@ -7,7 +7,7 @@ Steps (scratch worktree of /repo HEAD under /tmp, removed afterwards):
 import json, os, shutil, subprocess, sys
 
 V = os.path.dirname(os.path.dirname(os.path.abspath(__file__)))
-WT = "/tmp/seedverify-wt"
+WT = "/tmp/seedverify-wt-%d" % os.getpid()  # per invocation: several confirmations may run at once
 
 
 def sh(cmd, **kw):
@@ -53,11 +53,11 @@ def main():
             return 1
         # the existing suite, without the demo
         for d in demos:
-            os.rename(os.path.join(dst, "zz_seed_" + d if d.endswith("_test.go") else d), os.path.join("/tmp", "held_" + d))
+            os.rename(os.path.join(dst, "zz_seed_" + d if d.endswith("_test.go") else d), os.path.join("/tmp", "held_%d_" % os.getpid() + d))
         suite = sh("go test -vet=off -count=1 ./...", cwd=WT, env=env)
         ran.append({"cmd": "go test -vet=off -count=1 ./...  (patch applied, demo absent)", "exit": suite.returncode, "tail": "\n".join(l for l in suite.stdout.splitlines() if l.startswith(("ok", "FAIL", "---")))[-600:]})
         for d in demos:
-            os.rename(os.path.join("/tmp", "held_" + d), os.path.join(dst, "zz_seed_" + d if d.endswith("_test.go") else d))
+            os.rename(os.path.join("/tmp", "held_%d_" % os.getpid() + d), os.path.join(dst, "zz_seed_" + d if d.endswith("_test.go") else d))
         if suite.returncode != 0:
             print("existing suite FAILS with the patch:\n", suite.stdout[-1500:])
             return 1
